@@ -547,7 +547,7 @@ def solve_one(
             statistics[STATS_IDX_SOLVER_SOLUTION_NB] += 1
             return get_solution(shr_domains_stack, stacks_top, dom_indices_arr, dom_offsets_arr)
         elif status == PROBLEM_UNBOUND:
-            if stacks_top[0] + 2 >= len(shr_domains_stack):  # a value heuristic pushes at most two choice points
+            if stacks_top[0] >= len(shr_domains_stack) - 2:  # a value heuristic pushes at most two choice points
                 raise IndexError("The choice points stack is full, please increase stack_max_height")
             dom_idx = var_heuristic_fct(var_heuristic_params, decision_domains, shr_domains_stack, stacks_top)
             events = dom_heuristic_fct(
